@@ -176,7 +176,33 @@ def build_trial(d):
     return t
 
 
-BUILDERS = {'Trial': build_trial}
+def build_metric_information(d):
+    kw = {}
+    for k in ('safety_threshold', 'safety_std_threshold', 'desired_min_safe_trials_fraction', 'min_value', 'max_value'):
+        if d.get(k) is not None:
+            kw[k] = float(d[k])
+    return bsc.MetricInformation(name=d.get('name', ''), goal=bsc.ObjectiveMetricGoal[d.get('goal', 'MAXIMIZE')], **kw)
+
+
+def build_pc(d):
+    kw = {}
+    if d.get('feasible_values') is not None:
+        kw['feasible_values'] = [dec(v) for v in d['feasible_values']]
+    elif d.get('bounds') is not None:
+        kw['bounds'] = (dec(d['bounds'][0]), dec(d['bounds'][1]))
+    if d.get('scale_type'):
+        kw['scale_type'] = pcl.ScaleType[d['scale_type']]
+    if d.get('default_value') is not None:
+        kw['default_value'] = dec(d['default_value'])
+    if d.get('external_type'):
+        kw['external_type'] = pcl.ExternalType[d['external_type']]
+    if d.get('children'):
+        kw['children'] = [([dec(v) for v in vals], build_pc(c)) for vals, c in d['children']]
+    return pcl.ParameterConfig.factory(d.get('name', 'p'), **kw)
+
+
+BUILDERS = {'Trial': build_trial, 'MetricInformation': build_metric_information, 'ParameterConfig': build_pc,
+            'ConditionalParameterConfig': build_pc}
 
 
 def converters(kind, x):
@@ -192,7 +218,10 @@ def converters(kind, x):
     return c(x)
 
 
-CONVERTERS = {'Trial': lambda x: (pc.TrialConverter.to_proto, pc.TrialConverter.from_proto)}
+CONVERTERS = {'Trial': lambda x: (pc.TrialConverter.to_proto, pc.TrialConverter.from_proto),
+              'MetricInformation': lambda x: (pc.MetricInformationConverter.to_proto, pc.MetricInformationConverter.from_proto),
+              'ParameterConfig': lambda x: (pc.ParameterConfigConverter.to_proto, pc.ParameterConfigConverter.from_proto),
+              'ConditionalParameterConfig': lambda x: (pc.ParameterConfigConverter.to_proto, pc.ParameterConfigConverter.from_proto)}
 
 
 def run_job(job):
@@ -218,6 +247,8 @@ def run_job(job):
     res['roundtrip'] = rt
     res['idempotent'] = idem
     part, _, field = clause.partition('.')
+    if field == 'no_exception':
+        return res, False           # no exception occurred
     table = rt if part == 'roundtrip' else idem
     if field in table:
         return res, not table[field]
